@@ -33,6 +33,7 @@ unsigned g_json_version;	/* bumped by every mutator call */
 unsigned g_json_mutations;	/* number of mutator calls */
 unsigned g_json_loads_flags;	/* flags of the last json_loads/loadb call */
 unsigned g_json_dumps_flags;	/* flags of the last json_dumps call */
+const json_t *g_json_dumped;	/* ... and the value it was asked to serialise */
 json_t *g_json_loaded;		/* document returned by the last json_loads/loadb/load_file/loadf (NULL: it failed) */
 json_t *g_json_loaded_tracked;	/* ... and its tracked member at load time */
 int g_json_update_kind;		/* last merge: 1 = json_object_update, 2 = json_object_update_missing */
@@ -470,6 +471,7 @@ char *json_dumps(const json_t *json, size_t flags)
 {
 	VJ_LIVE(json);
 	g_json_dumps_flags = (unsigned)flags;
+	g_json_dumped = json;
 	if (json == NULL)
 		return NULL;
 #ifndef VERIF_JSON_ALLOC_NEVER_FAILS
